@@ -616,6 +616,8 @@ class ObjRun:
             pn = obj.get_parameter_names()
             if not pn or not all(n in self.vals for n in pn):
                 return
+            if self.sc["graph"].get("xform") == "cuqi_fun":
+                return                        # (a stacked vector is a vector of parameters: no function-value form)
             st = obj._as_stacked()
             v = float(np.ravel(st.logd(np.hstack([_f(self.vals[n]) for n in pn])))[0])
             w = float(np.ravel(obj.logd(**{n: self.vals[n] for n in pn}))[0])
@@ -897,16 +899,18 @@ def _short(v):
         return str(val)[:80]
 
 
-TAGS = {"heat_pde": ["y.cov"], "userdef_x": ["y.cov"], "gamma_mv": [], "kl_nonlin": ["y.cov"], "lin_step": ["y.cov"], "selfnamed": ["y.cov"], "cov_sdt": ["y.cov"], "cov_sd": ["y.cov"], "direct_param": ["y.cov"], "sigdep_x": ["x.prec", "y.cov"], "reg_d": ["x.prec"], "lin_geom": ["y.cov"], "lognormal_cov_s": ["x.cov"], "lin_sqrtprecF": ["y.cov"], "lin_s": ["y.cov"], "lin_d_s": ["x.prec", "y.cov"], "gmrf_d_s": ["x.prec", "y.prec"], "lmrf_d": ["x.scale"],
+TAGS = {"mapped_x": ["x.prec"], "heat_pde": ["y.cov"], "userdef_x": ["y.cov"], "gamma_mv": [], "kl_nonlin": ["y.cov"], "lin_step": ["y.cov"], "selfnamed": ["y.cov"], "cov_sdt": ["y.cov"], "cov_sd": ["y.cov"], "direct_param": ["y.cov"], "sigdep_x": ["x.prec", "y.cov"], "reg_d": ["x.prec"], "lin_geom": ["y.cov"], "lognormal_cov_s": ["x.cov"], "lin_sqrtprecF": ["y.cov"], "lin_s": ["y.cov"], "lin_d_s": ["x.prec", "y.cov"], "gmrf_d_s": ["x.prec", "y.prec"], "lmrf_d": ["x.scale"],
         "two_lik": ["y2.cov"], "nonlin": ["y.cov"], "xz_s": ["y.cov"], "laplace_b": ["x.scale"],
         "mean_m": ["x.mean", "y.cov"], "cmrf_d": ["x.scale"], "lognormal": ["y.cov"]}
 
 
 def gen_case(r, tier):
-    g = r.choice([x for x in graphs.GRAPHS if x != "reg_s"] + ["xz_s", "cov_sd", "cov_sdt", "gmrf_d_s"])      # callables with two arguments: twice as likely
+    g = r.choice([x for x in graphs.GRAPHS if x != "reg_s"] + ["xz_s", "cov_sd", "cov_sdt", "gmrf_d_s", "mapped_x"])      # callables with two arguments: twice as likely
     n = r.randint(2, 5)
     rec = {"graph": g, "n": n, "m": n + r.randint(0, 2), "zseed": r.randrange(1, 10 ** 6),
            "bc": r.choice(["zero", "zero", "neumann"])}
+    if g == "mapped_x":
+        rec["xform"] = r.choice(["array", "cuqi_par", "cuqi_fun", "cuqi_fun"])
     sc = {"graph": rec, "components": r.random() < 0.7}
     ops = []
     for _ in range(r.randint(8, 28)):
